@@ -15,15 +15,61 @@ def raw(t):
 
 
 def pc_text(pc):
-    return ' && '.join(sorted(raw(c) for c in pc)) or 'always'
+    c = T.canon(T.tand(*pc)) if pc else T.TRUE
+    if c == T.TRUE:
+        return 'always'
+    conj = c[1] if isinstance(c, tuple) and c and c[0] == 'and' else (c,)
+    return ' && '.join(sorted(raw(x) for x in conj))
 
 
-def cases(value, pc=()):
-    """guarded-case normal form of a function value: split conditionals at the top of the term"""
+def cases(value, pc=(), fuel=5):
+    """guarded-case normal form of a value: conditionals at the top of the term, as summands of a top-level linear form,
+    as the payload of Ok/Some or as a direct argument of a top-level call are split into separate cases
+    (`f(if c {a} else {b})` and `if c {f(a)} else {f(b)}` are the same two cases)"""
     v = T.unroot(value)
-    if isinstance(v, tuple) and v and v[0] == 'ite':
-        return cases(v[2], pc + (v[1],)) + cases(v[3], pc + (T.tnot(v[1]),))
+    if fuel > 0 and isinstance(v, tuple) and v:
+        if v[0] == 'ite':
+            return cases(v[2], pc + (v[1],), fuel - 1) + cases(v[3], pc + (T.tnot(v[1]),), fuel - 1)
+        if T.is_lin(v):
+            for r, c in v[2]:
+                if isinstance(r, tuple) and r and r[0] == 'ite':
+                    rest = T.sub(v, T.scale(T.root(r), c))
+                    return cases(T.add(rest, T.scale(T.as_lin(r[2]), c)), pc + (r[1],), fuel - 1) + \
+                        cases(T.add(rest, T.scale(T.as_lin(r[3]), c)), pc + (T.tnot(r[1]),), fuel - 1)
+        if v[0] in ('ok', 'some', 'err') and len(v) == 2:
+            inner = T.unroot(v[1])
+            if isinstance(inner, tuple) and inner and inner[0] == 'ite':
+                return cases((v[0], inner[2]), pc + (inner[1],), fuel - 1) + cases((v[0], inner[3]), pc + (T.tnot(inner[1]),), fuel - 1)
+        if v[0] == 'call':
+            for i, a in enumerate(v[2]):
+                au = T.unroot(a)
+                if isinstance(au, tuple) and au and au[0] == 'ite':
+                    mk = lambda x: ('call', v[1], v[2][:i] + (T.unroot(x),) + v[2][i + 1:])
+                    return cases(mk(au[2]), pc + (au[1],), fuel - 1) + cases(mk(au[3]), pc + (T.tnot(au[1]),), fuel - 1)
     return [(pc, value)]
+
+
+def exclusive(a, b):
+    """two path conditions that cannot hold together (one contains the negation of a conjunct of the other)"""
+    if a is None or b is None:
+        return False
+    return any(T.tnot(c) in b for c in a)
+
+
+def order_effects(effects):
+    """effects are listed in evaluation order, except that a run of effects with pairwise contradictory path conditions
+    (the arms of one conditional) is sorted: `if c {f(a)} else {f(b)}` and `f(if c {a} else {b})` list the same effects"""
+    out = []
+    i = 0
+    while i < len(effects):
+        run = [effects[i]]
+        j = i + 1
+        while j < len(effects) and effects[j][0] == effects[i][0] and all(exclusive(effects[j][2], r[2]) for r in run):
+            run.append(effects[j])
+            j += 1
+        out.extend(sorted(t for _, t, _ in run))
+        i = j
+    return out
 
 
 def summarise(crate, body, args=None):
@@ -42,6 +88,7 @@ def summarise(crate, body, args=None):
             continue
         lines.append(('RET ' + raw(v)) if cond == T.TRUE else f'CASE {raw(cond)} => {raw(v)}')
     lines[:] = sorted(set(lines))
+    effects = []      # (indent, text, frozenset(pc)) in evaluation order
     loops = {}
     reduced = set()
     for e in ev.events:
@@ -62,18 +109,23 @@ def summarise(crate, body, args=None):
             head = f"{ind}LOOP[{e.get('src')}]"
             if e.get('iter') is not None:
                 head += ' over ' + raw(e['iter'])
-            lines.append(head)
+            effects.append((ind, head, None))
         elif k == 'assign':
             tgt = e.get('name', '?') + ''.join('.' + f for f in e.get('fields', ()) if f != '[]')
-            lines.append(f"{ind}SET {tgt} := {raw(e['value'])} WHEN {pc_text(e['pc'])}")
+            effects.append((ind, f"{ind}SET {tgt} := {raw(e['value'])} WHEN {pc_text(e['pc'])}", frozenset(e['pc'])))
         elif k == 'ret':
             if (e.get('joined') or e.get('as_case')) and not e['loops']:
                 continue    # already one of the CASE lines
-            lines.append(f"{ind}RETURN {raw(e['value'])} WHEN {pc_text(e['pc'])}")
+            effects.append((ind, f"{ind}RETURN {raw(e['value'])} WHEN {pc_text(e['pc'])}", frozenset(e['pc'])))
         elif k == 'break':
-            lines.append(f"{ind}BREAK WHEN {pc_text(e['pc'])}")
+            effects.append((ind, f"{ind}BREAK WHEN {pc_text(e['pc'])}", frozenset(e['pc'])))
         elif k == 'mutcall':
-            lines.append(f"{ind}MUT {e.get('place')}.{e['callee'].split('::')[-1]}({', '.join(raw(a) for a in e['args'][1:])}) WHEN {pc_text(e['pc'])}")
+            callt = ('call', e['callee'].split('::')[-1], tuple(T.unroot(T.canon(a)) for a in e['args'][1:]))
+            for cpc, cv in cases(callt):
+                cv = T.unroot(cv)
+                effects.append((ind, f"{ind}MUT {e.get('place')}.{cv[1]}({', '.join(raw(a) for a in cv[2])}) WHEN {pc_text(tuple(e['pc']) + tuple(cpc))}",
+                                frozenset(tuple(e['pc']) + tuple(cpc))))
+    lines.extend(order_effects(effects))
     # initial values of loop-carried variables
     for nid, l in loops.items():
         assigned = {}
